@@ -1,6 +1,5 @@
 (* ApiV2/Props.v — property C15: the theorems, nothing else.
    Each is closed by [exact <lemma>] and followed by Print Assumptions. *)
-From Coq Require Import String.
 From Verif Require Import ApiV2.Model ApiV2.ProofsKey ApiV2.ProofsRegion ApiV2.ProofsStore ApiV2.ProofsPD ApiV2.Catalogue.
 Open Scope N_scope.
 
@@ -191,15 +190,14 @@ Proof. exact run_transparent. Qed.
 Print Assumptions C15_transparent.
 
 (* --- catalogue: meaning of the generated finite check --- *)
-Theorem C15_catalogue_meaning : forall known fields cmds, catalogue_ok known fields cmds = true ->
-  (forall f, In f fields ->
-     (f_obs f = expected f /\ f_foreign_rejected f = true) \/ known_gap known (f_fc f) = true) /\
+Theorem C15_catalogue_meaning : forall fields cmds, catalogue_ok fields cmds = true ->
+  (forall f, In f fields -> f_obs f = expected f /\ f_foreign_rejected f = true) /\
   (forall x, In x cmds ->
-     (x_enc_ok x = true \/ known_gap known (gap_class x "encode_request") = true) /\
-     (x_has_ctx x = true -> (x_attach x = true /\ x_ctx_set x = true) \/ known_gap known (gap_class x "attach_context") = true) /\
-     (x_resp_rerr x = true -> (x_genre x = true /\ x_readback x = true) \/ known_gap known (gap_class x "gen_region_error") = true) /\
-     (x_resp_rerr x = true -> x_clip x = true \/ known_gap known (gap_class x "resp:RegionError") = true) /\
-     (x_batch x = true -> x_batch_rt x = true \/ known_gap known (gap_class x "batch_conversion") = true)).
+     x_enc_ok x = true /\
+     (x_has_ctx x = true -> x_attach x = true /\ x_ctx_set x = true) /\
+     (x_resp_rerr x = true -> x_genre x = true /\ x_readback x = true) /\
+     (x_resp_rerr x = true -> x_clip x = true) /\
+     (x_batch x = true -> x_batch_rt x = true)).
 Proof. exact catalogue_ok_meaning. Qed.
 Print Assumptions C15_catalogue_meaning.
 
@@ -234,9 +232,6 @@ Example ex_buckets :
     = Some [[]; [5]; []]
   /\ parse_keyspace_id [120; 0; 1; 2; 9] = Some 258 /\ parse_keyspace_id [109; 0; 1; 2] = None /\ parse_keyspace_id [120; 0; 1] = None.
 Proof. repeat split; vm_compute; reflexivity. Qed.
-Example ex_known_gap : known_gap ["resp:RegionError.Bucket"%string] "catalogue_gap:Get:resp:RegionError.BucketVersionNotMatch"%string = true
-  /\ known_gap ["resp:RegionError.Bucket"%string] "catalogue_gap:Get:resp:RegionError"%string = false.
-Proof. vm_compute. auto. Qed.
 Example ex_two_clients :
   let a := mkks Raw 1 in let b := mkks Raw 2 in
   run [(a, OPut [1] [10]); (b, OPut [1] [20]); (b, ODelRange [] []); (a, OScan false [] [] 5); (b, OScan true [] [] 5)] []
